@@ -218,6 +218,8 @@ def check_c05(tier, seed):
     merged = Merged()
     lib = mkbuild("shipped").build(st)
     run_mc(st, lib, "h_ctr.c", "c05", tier, seed, merged, v, nshards=26)
+    if tier == "thorough":      # the 32-bit-word build compiles different vector S-box code in the 128-bit back end
+        run_mc(st, mkbuild("w32").build(st), "h_ctr.c", "c05", tier, seed, merged, v, nshards=26)
     closed = all(val == 0 for k, val in merged.notes.items() if k.startswith("kinds_cut_by_depth_cap"))
     cov = mc_cov(merged,
                  "BFS over CTR call histories {init, set_key|set_tweaked_key, set_tweak, set_counter, encrypt(len), second set_counter} "
@@ -238,6 +240,10 @@ def check_c06(tier, seed):
     lib = mkbuild("shipped").build(st)
     run_mc(st, lib, "h_ctr.c", "c06", tier, seed, merged, v, nshards=26)
     mp = run_mc(st, lib, "h_par.c", "c06p", tier, seed, merged, v, nshards=NCPU)
+    if tier == "thorough":
+        lw = mkbuild("w32").build(st)
+        run_mc(st, lw, "h_ctr.c", "c06", tier, seed, merged, v, nshards=26)
+        run_mc(st, lw, "h_par.c", "c06p", tier, seed, merged, v, nshards=NCPU)
     closed = all(val == 0 for k, val in merged.notes.items() if k.startswith("kinds_cut_by_depth_cap"))
     cov = mc_cov(merged,
                  "BFS over CTR call histories on one object per available back end in lock step; the C05 alphabet widened with "
@@ -339,7 +345,7 @@ def check_c10(tier, seed):
 
 
 C11_SUBS = [("h_dp.c", "c01", False), ("h_dp.c", "c02", False), ("h_dp.c", "c04", False), ("h_par.c", "c07", True),
-            ("h_keylen.c", "c10", True), ("h_ctr.c", "c05", True), ("h_sched.c", "c04", True)]
+            ("h_keylen.c", "c10", True), ("h_ctr.c", "c05", True), ("h_life.c", "c16", True), ("h_sched.c", "c04", True)]
 
 
 def check_c11(tier, seed):
@@ -353,6 +359,7 @@ def check_c11(tier, seed):
     env = dict(os.environ); env["MSAN_OPTIONS"] = "exitcode=77:halt_on_error=1"
     per = {}
     subs = C11_SUBS if tier == "thorough" else [x for x in C11_SUBS if x[1] != "c04"]
+    # (h_life.c c16: the allocation-failure histories, whose caller object is painted / poisoned before the failing init)
     # quick: a deterministic part of each enumeration (the first shards of the usual split)
     part = None if tier == "thorough" else 3
     work = []
@@ -363,7 +370,7 @@ def check_c11(tier, seed):
                                wraps=MC_WRAPS if mc else WRAP_PIN)
         args = ["--sub", sub, "--tier", "quick", "--seed", str(seed), "--label", "msan", "--maxbe", str(msan.maxbe), "--paint", "0"]
         m = Merged()
-        for res in run_sharded(binary, args, st, "msan-%s-%s" % (sub, src[2:-2]), nshards=NCPU, env=env, timeout=3000, only=part):
+        for res in run_sharded(binary, args, st, "msan-%s-%s" % (sub, src[2:-2]), nshards=NCPU, env=env, timeout=3000, only=None if sub == "c16" else part):
             m.add(res, None)
         return ("msan", src, sub, None, 0, m)
     for src, sub, mc in subs:
@@ -376,7 +383,7 @@ def check_c11(tier, seed):
         binary = build_harness(st, lib, "paint-%s%s-%d" % (sub, src[2:-2], paint), sources, wraps=MC_WRAPS if mc else WRAP_PIN)
         args = ["--sub", sub, "--tier", "quick", "--seed", str(seed), "--label", lib.name, "--maxbe", str(lib.maxbe), "--paint", str(paint)]
         m = Merged()
-        for res in run_sharded(binary, args, st, "paint-%s-%s-%s-%d" % (lib.name, sub, src[2:-2], paint), nshards=NCPU, timeout=3000, only=part):
+        for res in run_sharded(binary, args, st, "paint-%s-%s-%s-%d" % (lib.name, sub, src[2:-2], paint), nshards=NCPU, timeout=3000, only=None if sub == "c16" else part):
             m.add(res, None)
         return ("paint", src, sub, lib, paint, m)
     for lib in (shipped, o0):
@@ -405,7 +412,7 @@ def check_c11(tier, seed):
                                   "detail": "digest of all '%s' results of the %s/%s histories differs between (shipped -O3, paint 0x00) and (%s, paint 0x%02x): %s vs %s"
                                             % (tag, src, sub, key[2], key[3], ref.get(tag), val.get(tag))})
     cov = {"evaluations": merged.evaluations + merged.transitions, "distinct_nontrivial": merged.distinct + merged.states,
-           "rule": "the quick histories of C01, C02, C04, C05, C07 and C10 executed (a) in a clang MemorySanitizer build (origins tracked) with an explicit shadow test on every output block, key schedule, "
+           "rule": "the quick histories of C01, C02, C04, C05, C07, C10 and the allocation-failure histories of C16 executed (a) in a clang MemorySanitizer build (origins tracked) with an explicit shadow test on every output block, key schedule, "
                    "context image and return value, caller objects and the stack below each call poisoned; (b) in the shipped -O3 and the -O0 builds twice each with the stack below every call and the caller's "
                    "objects painted 0x00 vs 0xA5: the digests of everything returned must be bit-identical across the four runs; distinct = distinct cases of those histories",
            "samples": merged.samples[:6], "runs": per, "digest_comparisons": ncmp, "result_tags": sorted(set(t for val in sums.values() for t in val)),
@@ -631,11 +638,17 @@ def check_c20(tier, seed):
         tw = None if tl is None else (("ff" * tl) if idx % 4 == 1 else hexbytes(tl, 11))
         inp = infile(n)
         out = os.path.join(work, "out-%d.bin" % idx); exp = os.path.join(work, "exp-%d.bin" % idx); back = os.path.join(work, "back-%d.bin" % idx)
-        cmd = [os.path.join(ex, tool[mode]), "-b", str(bs * 8), "-k", key]
+        # option order varies with the case index: -b first, -b last, -d first
+        opts = [["-b", str(bs * 8)], ["-k", key]]
         if tw is not None:
-            cmd += ["-c" if mode == "ctr" else "-t", tw]
+            opts.append(["-c" if mode == "ctr" else "-t", tw])
         if d == "dec":
-            cmd += ["-d"]
+            opts.append(["-d"])
+        if idx % 3 == 1:
+            opts = opts[1:] + opts[:1]
+        elif idx % 3 == 2:
+            opts = list(reversed(opts))
+        cmd = [os.path.join(ex, tool[mode])] + [x for o_ in opts for x in o_]
         p = vplib.sh(cmd + [inp, out], check=False)
         desc = "%s %s" % (" ".join(os.path.basename(x) if os.sep in x else x for x in cmd), "in-%d.bin" % n)
         errs = []
@@ -676,6 +689,11 @@ def check_c20(tier, seed):
             ("key too short", ["-b", "128", "-k", "0011223344", good_in, "OUT"]), ("key too long", ["-b", "64", "-k", k16 * 2, good_in, "OUT"]),
             ("key too long for 128", ["-b", "128", "-k", k16 * 3 + "00", good_in, "OUT"]),
             ("counter/tweak longer than the block", ["-b", "64", "-k", k16, "-c", "00112233445566778899", good_in, "OUT"]),
+            ("counter/tweak longer than the block, -b given last", ["-k", k16, "-c", "00112233445566778899", "-b", "64", good_in, "OUT"]),
+            ("16-byte counter/tweak with -b 64 given last", ["-c", k16, "-k", k16, "-b", "64", good_in, "OUT"]),
+            ("17-byte counter/tweak", ["-k", k16, "-c", k16 + "00", good_in, "OUT"]),
+            ("key too long, -b given last", ["-k", k16 * 2, "-b", "64", good_in, "OUT"]),
+            ("key too short, -b given first", ["-b", "64", "-k", "00112233445566", good_in, "OUT"]),
             ("bad -b", ["-b", "96", "-k", k16, good_in, "OUT"]), ("missing file arguments", ["-k", k16]), ("missing output file", ["-k", k16, good_in]),
             ("unreadable input", ["-k", k16, os.path.join(work, "does-not-exist"), "OUT"]), ("unknown option", ["-x", "-k", k16, good_in, "OUT"]),
             ("empty counter/tweak", ["-k", k16, "-c", "", good_in, "OUT"])]
@@ -687,6 +705,8 @@ def check_c20(tier, seed):
                 argv = ["-t" if a == "-c" else a for a in argv]
                 if name == "key too long":
                     argv[3] = k16 + "00"
+                if name == "key too long, -b given last":
+                    argv[1] = k16 + "00"
                 if name == "key too long for 128":
                     argv[3] = k16 * 2 + "00"
             outp = os.path.join(work, "inv-out.bin")
@@ -723,7 +743,7 @@ def check_c15(tier, seed):
     merged = Merged()
     lib = mkbuild("shipped").build(st)
     run_mc(st, lib, "h_life.c", "c15", tier, seed, merged, v, nshards=14)
-    depth = 8 if tier == "thorough" else 6
+    depth = 9 if tier == "thorough" else 6
     cov = mc_cov(merged,
                  "BFS over {init, set_key, set_tweaked_key, set_tweak, set_counter, use, swap_modes, cleanup} x two objects of each kind (3 CTR, 3 parallel) on each back end, "
                  "all histories up to depth %d (histories where the caller itself leaks by re-initialising a live object are excluded); states = (per-object phase, context images, "
